@@ -116,6 +116,15 @@ func multi(first string, cont ...string) Variant {
 	return Variant{append([]string{first}, cont...), q(f.RefValue())}
 }
 
+// upl: n uploaders on one line (list lengths at which append leaves spare capacity behind)
+func upl(n int) Variant {
+	var names []string
+	for i := 0; i < n; i++ {
+		names = append(names, fmt.Sprintf("Uploader %d <u%d@example.org>", i, i))
+	}
+	return list(names, strings.Join(names, ", "))
+}
+
 func intv(n int) Variant { return Variant{[]string{fmt.Sprint(n)}, fmt.Sprint(n)} }
 
 func ver(s string) Variant {
@@ -246,6 +255,7 @@ func dscFields() []FSpec {
 			list([]string{"Jane Roe <jane@example.org>"}, "Jane Roe <jane@example.org>"),
 			list([]string{"Jane Roe <jane@example.org>", "John Doe <jd@example.org>", "A B <c@d>"}, "Jane Roe <jane@example.org>,", "John Doe <jd@example.org>,", "A B <c@d>"),
 			list([]string{"Jane Roe <jane@example.org>", "Santiago Vila <sanvila@debian.org>", "Jane Roe <jane@example.org>"}, "Jane Roe <jane@example.org>, Santiago Vila <sanvila@debian.org>, Jane Roe <jane@example.org>"),
+			upl(5), upl(9), upl(17),
 			// names that begin or end with a character whose code point has a blank, newline or carriage return as its low byte
 			list([]string{"\u0120or\u0121 Borg <g@example.org>", "\u010aensu Tabone <c@example.org>", "Ren\u00e9 \u010d", "Dagger \u2020"}, "\u0120or\u0121 Borg <g@example.org>, \u010aensu Tabone <c@example.org>,", "Ren\u00e9 \u010d, Dagger \u2020")}},
 		{"Homepage", "Homepage", "scalar", []Variant{scalar("https://www.gnu.org/software/hello/")}},
@@ -273,7 +283,8 @@ func changesFields() []FSpec {
 		{"Maintainer", "Maintainer", "scalar", []Variant{scalar("Santiago Vila <sanvila@debian.org>")}},
 		{"Changed-By", "ChangedBy", "scalar", []Variant{scalar("Jane Roe <jane@example.org>")}},
 		{"Closes", "Closes", "list", []Variant{list([]string{"123456", "654321"}, "123456 654321"), list([]string{"123456"}, "123456")}},
-		{"Changes", "Changes", "scalar", []Variant{multi("", "hello (2.10-1) unstable; urgency=medium", ".", "  * New upstream release.", "  * Closes: #123456")}},
+		{"Changes", "Changes", "scalar", []Variant{multi("", "hello (2.10-1) unstable; urgency=medium", ".", "  * New upstream release.", "  * Closes: #123456"),
+			multi("", "hello (2.10-1) unstable; urgency=medium", ".", "  * Fix the build with the new toolchain (Closes:", "    #1012345).", "  #include <hello.h> no longer needed", "  .", "\t* tab-indented item", " .", "  * last")}},
 		{"Checksums-Sha1", "ChecksumsSha1", "sha1", []Variant{files("sha1", s1, s2), files("sha1", s1)}},
 		{"Checksums-Sha256", "ChecksumsSha256", "sha256", []Variant{files("sha256", t1, t2), files("sha256", t1)}},
 		{"Files", "Files", "chfiles", []Variant{files("changes", h1, h2, h3), files("changes", h1), files("changes", h1, hBig, h4G), files("changes", h2, h3)}},
@@ -318,7 +329,8 @@ func binaryParaFields(name string) []FSpec {
 		{"Conffiles", "Conffiles", "md5", []Variant{
 			{[]string{"", "/etc/hello.conf d41d8cd98f00b204e9800998ecf8427e", "/etc/hello.d/x 0cc175b9c0f1b6a831c399e269772661"}, "[(md5 d41d8cd98f00b204e9800998ecf8427e 0 /etc/hello.conf) (md5 0cc175b9c0f1b6a831c399e269772661 0 /etc/hello.d/x)]"},
 			{[]string{"", "/etc/hello.conf d41d8cd98f00b204e9800998ecf8427e"}, "[(md5 d41d8cd98f00b204e9800998ecf8427e 0 /etc/hello.conf)]"}}},
-		{"Description", "Description", "scalar", []Variant{multi("XDG compliant autostarting app", "The app was designed to have little overhead.", ".", "Second paragraph."), scalar("short only")}},
+		{"Description", "Description", "scalar", []Variant{multi("XDG compliant autostarting app", "The app was designed to have little overhead.", ".", "Second paragraph."), scalar("short only"),
+			multi("editor scripts", "An ed-style example:", "  1,$p", "  .", "  #include <hello.h>", "  w", ".", "# not a comment: it is indented", "\tq")}},
 	}
 }
 
@@ -395,7 +407,7 @@ func debControlFields() []FSpec {
 		{"Section", "Section", "scalar", []Variant{scalar("devel")}},
 		{"Priority", "Priority", "scalar", []Variant{scalar("optional")}},
 		{"Homepage", "Homepage", "scalar", []Variant{scalar("https://www.gnu.org/software/hello/")}},
-		{"Description", "Description", "scalar", []Variant{multi("example package", "long text", ".", "more"), scalar("short")}},
+		{"Description", "Description", "scalar", []Variant{multi("example package", "long text", ".", "more"), scalar("short"), multi("verbatim block", "  .", "  #1", "  x")}},
 	}
 }
 
